@@ -126,7 +126,7 @@ Section Rejected.
 
   Hypothesis Hstyle : style_stable M U R I p elem.
   Hypothesis Hrej : forall k v, relevant elem k = true -> Fa (k, v) = [].
-  Hypothesis Hurl : forall k v, url_attr_of elem = Some k -> Fa (k, v) = [(k, v)].
+  Hypothesis Hurl : forall k v u, url_attr_of elem = Some k -> Fa (k, v) = [(k, v)] -> Fa (k, u) = [(k, u)].
   Hypothesis Hrw : srcRewriter p = None.
   Hypothesis Hstable : forall raw u, valid_url I p raw = Some u -> valid_url I p u = Some u.
   Hypothesis Hnosandbox : forall l, sandbox_pass p elem l = l.
@@ -153,7 +153,7 @@ Section Rejected.
         assert (Hk : akey a0 = k) by (unfold key_is in Eka; apply beqb_eq in Eka; exact Eka).
         split; [split|].
         * unfold nonrel in *. cbn [akey fst]. exact Hn.
-        * rewrite Hk. apply Hurl. reflexivity.
+        * rewrite Hk. apply (Hurl k (aval a0) u eq_refl). rewrite <- Hk. rewrite attr_eta. exact Hf.
         * unfold url_pass_attr. rewrite Ek. change (key_is k (akey a0, u)) with (key_is k a0). rewrite Eka. cbn [aval snd]. rewrite (Hstable _ _ Ev), Hrw, Eu. reflexivity.
       + destruct Ha as [<-|[]]. split; [split; assumption|]. unfold url_pass_attr. rewrite Ek, Eka. reflexivity.
     - destruct Ha as [<-|[]]. split; [split; assumption|]. unfold url_pass_attr. rewrite Ek. reflexivity.
@@ -218,7 +218,7 @@ Section RelOnly.
   Hypothesis Hnot_a : beqb elem (B"a") = false.
   Hypothesis Hrel : forall v, Fa (REL, v) = [(REL, v)].
   Hypothesis Hcross : forall v, Fa (CROSSORIGIN, v) = [].
-  Hypothesis Hurl : forall k v, url_attr_of elem = Some k -> Fa (k, v) = [(k, v)].
+  Hypothesis Hurl : forall k v u, url_attr_of elem = Some k -> Fa (k, v) = [(k, v)] -> Fa (k, u) = [(k, u)].
   Hypothesis Hrw : srcRewriter p = None.
   Hypothesis Hstable : forall raw u, valid_url I p raw = Some u -> valid_url I p u = Some u.
   Hypothesis Hnosandbox : forall l, sandbox_pass p elem l = l.
@@ -306,7 +306,7 @@ Section Decide.
     negb (beqb elem (B"a")) && accepted_b M U R p aps REL && rejected_b aps CROSSORIGIN.
   Definition elem_stable3_b (elem : bytes) (aps : amap (list (attr_policy M))) : bool :=
     elem_stable2_b p elem aps ||
-    ((relevant_rejected_b elem aps || rel_only_b elem aps) && url_unpatterned_b M elem aps && no_sandbox_b M U R p elem).
+    ((relevant_rejected_b elem aps || rel_only_b elem aps) && url_free_b M U R p elem aps && no_sandbox_b M U R p elem).
 
   Lemma rejected_sound elem aps hsp k v : is_data_attribute k = false -> key_is (B"style") (k, v) = false -> rejected_b aps k = true ->
     filter_attr I p elem aps hsp (k, v) = [].
@@ -347,13 +347,13 @@ Section Decide.
       rewrite !E. apply orb_true_iff in H1 as [H1|H1].
       + apply sanitize_attrs_idem_relevant_rejected; auto.
         * apply relevant_rejected_sound; exact H1.
-        * apply (url_unpatterned_sound M U R I p); assumption.
+        * apply (url_free_sound M U R I p); assumption.
         * apply (no_sandbox_sound M U R p); exact H3.
       + unfold rel_only_b in H1. apply andb_true_iff in H1 as [H1 Hc]. apply andb_true_iff in H1 as [Ha Hr]. apply negb_true_iff in Ha.
         apply sanitize_attrs_idem_rel_only; auto.
         * intros v. apply (accepted_sound M U R I p); [reflexivity | assumption].
         * intros v. apply rejected_sound; [vm_compute; reflexivity | reflexivity | exact Hc].
-        * apply (url_unpatterned_sound M U R I p); assumption.
+        * apply (url_free_sound M U R I p); assumption.
         * apply (no_sandbox_sound M U R p); exact H3.
   Qed.
 End Decide.
